@@ -62,13 +62,21 @@ impl<'r> G<'r> {
                         }
                         4 => {
                             // !foldl(init, list, acc, var, expr): acc and var live until the closing parenthesis
-                            let acc = self.fresh("acc");
-                            let var = self.fresh("e");
+                            let acc = self.bang_var_name("acc", &[]);
+                            let var = self.bang_var_name("e", &[acc.clone()]);
                             // half of the folds run over strings: accumulator type (int) != element type (string)
                             let over_str = self.rng.chance(1, 2);
                             let elem = if over_str { Ty::Str } else { Ty::Int };
                             self.put("!foldl(");
-                            self.value(&Ty::Int, depth + 1, position);
+                            if self.rng.chance(1, 4) {
+                                // a start value whose type has to come from its operands
+                                self.put("!cond(true: ");
+                                self.value(&Ty::Int, depth + 1, position);
+                                self.put(")");
+                                self.p.features.push("bang:foldl-untyped-start");
+                            } else {
+                                self.value(&Ty::Int, depth + 1, position);
+                            }
                             self.put(", ");
                             self.value(&Ty::List(Box::new(elem.clone())), depth + 1, position);
                             self.put(", ");
@@ -273,7 +281,7 @@ impl<'r> G<'r> {
                         }
                         2 => {
                             // !foreach(x, list<int>, expr): x lives until the closing parenthesis
-                            let var = self.fresh("it");
+                            let var = self.bang_var_name("it", &[]);
                             self.put("!foreach(");
                             self.ctx_stack.push("bang");
                             let dv = self.decl_here(&var, DeclKind::BangVar, vec![var.clone()], None, false);
@@ -307,7 +315,7 @@ impl<'r> G<'r> {
                         }
                         _ => {
                             if el == Ty::Int {
-                                let var = self.fresh("fl");
+                                let var = self.bang_var_name("fl", &[]);
                                 self.put("!filter(");
                                 self.ctx_stack.push("bang");
                                 let dv = self.decl_here(&var, DeclKind::BangVar, vec![var.clone()], None, false);
